@@ -24,12 +24,29 @@ def plans(tier):
 
 def run(tier):
     res = transcheck.campaign("C02", plans(tier), "exactly-once, whole, ordered delivery")
+    # call level: free-running senders (1..8; threads on own handles, clones, spawned processes; up to 24 messages each,
+    # single- and multi-packet) against six receiver behaviours, every delivery validated against FifoTrace.tla
+    import fifocheck
+    stages = [("os", 4096, None), ("os", None, 45)] if tier == "quick" else [
+        ("os", 4096, 1500), ("os", None, 600), ("memfd", 4096, 300), ("inprocess", None, 300)]
+    for k, (variant, sb, nsc) in enumerate(stages):
+        r2 = fifocheck.campaign("C02", tier, variant=variant, sb=sb, nsc=nsc, models=(k == 0))
+        res["violations"] += r2["violations"]
+        for key in ("states", "transitions", "traces_validated_against_impl", "evaluations", "distinct_nontrivial"):
+            res["coverage"][key] = res["coverage"].get(key, 0) + r2["coverage"].get(key, 0)
+        res["coverage"]["samples"] += r2["coverage"]["samples"][:1]
     res["assumptions"] = ["exhaustive in the model for the listed programs (<=3 senders x <=2 messages x <=3 packets); "
                           "schedules executed on the real code are a random sample of the model's behaviours",
                           "send-buffer size 4096 through the override hook so that 3 packets are ~12 KB",
-                          "kernel premises K1, K5, K7 (validated by the Frag/Resources trace checks)"]
+                          "kernel premises K1, K5, K7 (validated by the Frag/Resources trace checks)",
+                          "free-running stage: schedules are whatever the OS produces (seeded jitter); real-time order is "
+                          "taken from one sequence number shared by all processes (an event before a call starts, one "
+                          "after it returned); Fifo.tla shows the trace rules are necessary for a linearisable FIFO channel"]
     return res
 
 
 def replay(rp):
+    if str(rp.get("kind", "")).startswith("fifo"):
+        print(rp.get("why") or rp.get("reject"))
+        return 0
     return transcheck.replay_one(rp)
